@@ -72,7 +72,12 @@ pub fn decode(mut src: &[u8]) -> io::Result<Vec<u8>> {
         let q = models.qual[usize::from(ctx)].decode(&mut src, &mut range_coder)?;
 
         let j = usize::from(q);
-        dst[i] = param.quality_map().map(|map| map[j]).unwrap_or(q);
+        dst[i] = match param.quality_map() {
+            Some(map) => *map.get(j).ok_or_else(|| {
+                io::Error::new(io::ErrorKind::InvalidData, "invalid quality score symbol")
+            })?,
+            None => q,
+        };
 
         ctx = fqz_update_context(param, q, &mut record);
 
@@ -123,7 +128,10 @@ fn fqz_new_record(
         }
     }
 
-    let param = &parameters.params[x];
+    let param = parameters
+        .params
+        .get(x)
+        .ok_or_else(|| io::Error::new(io::ErrorKind::InvalidData, "invalid parameter selector"))?;
 
     if !param.flags().is_fixed_length() || record.rec_no == 0 {
         last_len = read_length(src, range_coder, models)?;
